@@ -83,7 +83,11 @@ PROPS['C13'] = {
             'oracle: std::vector/deque reference compared after every operation (size, empty, front/back, every index, iteration, const '
             'accessors, backward links and in_list flags). Non-trivial: the element count crossed a growth threshold and shrank again, or a '
             'copy/move/swap/assign between two non-empty containers happened (intrusive: a splice of two non-empty lists or a mid insert and '
-            'mid erase); distinct = hash of the decoded history.',
+            'mid erase); distinct = hash of the decoded history. Further element types: Anchored (trivially destructible, observable move), Fuzzy '
+            '(trivially copyable, == modulo 16), Braced (initializer_list constructor: T{x} != T(x)). Arguments that alias the container: push/emplace_back/'
+            'resize(n, v) with an own element (with and without reallocation), push(move(own element)), stack push(top()), resize(n, T(x)) with an rvalue, '
+            'self-swap, near-copies compared with ==; nested owners node{id, vector<node>} with kids = kids[k].kids (copy, move), push of an own element, '
+            'assignment of a container to a vector owned by one of its elements (model: deep copy taken before the call).',
     'required_tags': ['kind-%d' % k for k in range(24)] + ['alias-arg-realloc', 'alias-arg-in-place', 'resize-rvalue-multi', 'sv-self-swap-inline', 'assign-from-owned-copy', 'assign-from-owned-move', 'stack-push-top', 'equal-but-not-bytewise', 'grew-then-shrank', 'pair-op-nonempty', 'splice-nonempty', 'sv-swap-inline-heap', 'sv-move-inline'],
     'min_cases': {'quick': 20000, 'thorough': 400000},
     'level_text': 'generated operation histories against std::vector/std::deque reference sequences, compared after every operation; held on everything generated',
@@ -103,6 +107,7 @@ PROPS['C16'] = {
             'over a live object, no read/move-from/assign/destroy of a non-live object, deallocate with the allocated size, no double/foreign free, '
             'nothing alive or allocated after the owners are destroyed. Non-trivial: the owner released at least one element or block before its '
             'destruction (pop/erase/remove/reset/assignment over a full owner/shrinking resize); distinct = hash of the decoded history.',
+    'rule_extension': 'small_vector self-swap (empty/inline/heap); unique_ptr whose owned object calls reset()/release() on its owner from its destructor (std::unique_ptr::reset stores the new pointer first); hash_map keys with observable lifetime (aliasing battery); blocks are checked against the pool (allocator id) they came from.',
     'required_tags': ['kind-1', 'kind-3', 'kind-5', 'kind-7', 'kind-9', 'kind-11', 'erase'],
     'min_cases': {'quick': 20000, 'thorough': 300000},
     'level_text': 'history invariant over generated operation sequences, decided by an address-keyed lifetime registry and a block registry; held on everything generated',
@@ -122,6 +127,7 @@ PROPS['C14'] = {
             'std::map reference, every key ever used is looked up with get/find/const find after every operation, iteration compared as a map. '
             'Non-trivial: a rehash happened while earlier entries were present (followed by the full lookup sweep) and an operator[] insertion of an '
             'absent key happened at size == capacity (the table block was reallocated during the call); distinct = hash of the decoded history.',
+    'rule_extension': 'aliasing battery hash_map<TKey,Obj> (key with observable lifetime whose move changes its hash; the value carries its key): insert(o.name, move(o)), insert(o.name, o), insert of a copy of a value read through get(), operator[] while a pointer into the map is live, remove(find(k)->key), bulk inserts across rehashes; oracle std::map plus the entry invariant key == value.name.',
     'required_tags': ['hash-mode-%d' % k for k in range(7)] + ['size-past-10', 'size-past-20', 'size-past-40', 'size-past-80', 'emptied-and-refilled', 'bracket-insert-at-capacity', 'init-list'],
     'min_cases': {'quick': 15000, 'thorough': 300000},
     'level_text': 'generated operation histories against a std::map reference with a full lookup sweep after every operation; held on everything generated',
@@ -143,6 +149,7 @@ PROPS['C15'] = {
             'operations over three string slots; oracle: std::string / std::string_view reference, terminator, ASan on sources and own buffer. '
             'Non-trivial: both operands non-empty and related (search hit at index > 0, comparison differing at a position > 0, prefix/suffix '
             'relation) or a history in which a concatenation/append joined two non-empty parts; distinct = hash of the decoded case.',
+    'rule_extension': 'wide battery: the same operands widened to char16_t and char32_t so that code units which agree modulo 256 (and, for char32_t, modulo 65536) occur in both operands; ==, find_first, find_last, find_first_of, sub_string, starts_with/ends_with on views; construction, compare, +, +=, push_back(0), += view of itself, resize, assignment, swap on basic_string<Char>; oracle std::basic_string(_view)<Char>; ASan for the terminator slot.',
     'required_tags': ['battery', 'history', 'to_number-digits', 'to_number-nondigit'],
     'min_cases': {'quick': 20000, 'thorough': 300000},
     'level_text': 'exhaustive over all pairs of strings up to length 3 over {a,b,NUL} plus generated longer inputs and histories, against std::string/std::string_view; held on everything generated',
@@ -164,6 +171,7 @@ PROPS['C17'] = {
             'and 3 with lvalue/const/rvalue arguments, reference tuples, tuple_cat over reference elements) with generated values; oracle: std::optional / '
             'index+payload models compared after every operation, accessor addresses inside the holder, std::tuple_cat. Non-trivial: an operation whose '
             'source and destination states differ, a manual_box destruct/re-initialise cycle, or a tuple battery over >= 2 tuples; distinct = hash of the decoded case.',
+    'rule_extension': 'emplace freshness: after optional/variant emplace the held object was constructed during the call (construction serial newer than the call), as std::optional/std::variant::emplace destroy and construct; value-initialisation battery: manual_box/optional/variant re-initialised without arguments over storage that held a non-zero scalar/POD must hold T().',
     'required_tags': ['kind-%d' % k for k in range(11)] + ['extra-%d' % k for k in range(4)] + ['tuple-%d' % k for k in range(6)] + ['manual_box', 'variant-pair-d3-s3-op0', 'optional-pair-d0-s0-op2', 'expected-pair-d0-s0-op1', 'self-assign'],
     'min_cases': {'quick': 20000, 'thorough': 300000},
     'level_text': 'complete enumeration of the (destination state x source state x operation) products plus generated histories against std::optional/std::variant-style models; held on everything generated',
@@ -389,6 +397,7 @@ PROPS['C11'] = {
             'only when every member of S has been inside quiescent_state() or offline since the registration; the callback frees its node (ASan sees any later touch by the '
             'library); every operation leaves the domain mutex free and never locks it twice; after the fair tail every registered callback has run. Non-trivial: a barrier '
             'was registered while another was pending, or an agent joined or left while a barrier was pending; distinct = hash of the decoded history.',
+    'rule_extension': 'engine/vclock.hpp (C++20 release sequences): every read-side access is stamped and the reclaiming callback checks that all of them happen before it.',
     'required_tags': ['join-while-barrier-pending', 'leave-while-barrier-pending', 'two-barriers-pending', 'quiescent_barrier', 'tail-rounds-2', 'has-barrier', 'third-agent-registered-barriers', 'several-barriers', 'switches-20+', 'quiescent_barrier-concurrent'],
     'min_cases': {'quick': 30000, 'thorough': 500000},
     'level_text': 'generated agent histories against a grace-period oracle and a bounded fair-tail liveness horizon; sequentially consistent schedules only; held on everything generated',
@@ -409,6 +418,7 @@ PROPS['C12'] = {
             'guards that say they own it, is_locked()/protects() equal the model, every release goes through the matching call, no lock of a held mutex and no unlock of a free '
             'one; at the end both mutexes are free and #acquire == #release. Non-trivial: an ownership transfer (move/swap/assign) involving an owning guard; distinct = hash '
             'of the decoded history.',
+    'rule_extension': 'engine/vclock.hpp (C++20 release sequences) over the lock words: the end of a critical section is stamped and the next holder checks that it happens before its own section.',
     'required_tags': ['unique_lock', 'shared_lock', 'qs-lock_guard', 'self-move-assign', 'ticket-counters-near-wrap'],
     'min_cases': {'quick': 30000, 'thorough': 500000},
     'level_text': 'exhaustive state-pair enumeration plus generated guard histories against an ownership model with an instrumented mutex; spinlocks under a harness-owned scheduler with TSan; held on everything generated',
@@ -429,6 +439,7 @@ PROPS['C10'] = {
             'result holds exactly the requested key and a valid checksum (fully initialised); a key completely inserted before the find began and not being erased is found; '
             'zero TSan reports (plain reads of prefix/depth/value racing with the writer); after the phase every present key is found at its old address. Non-trivial: a '
             'reader made a step while the writer was inside an insert; distinct = hash of (keys, scripts) - schedules of one script count once.',
+    'rule_extension': 'besides TSan, engine/vclock.hpp computes happens-before with C++20 release sequences over the interposed atomics; every value is stamped when constructed and each reader checks that the construction happens before its read.',
     'required_tags': ['reader-step-during-insert', 'switches-5-19'],
     'min_cases': {'quick': 20000, 'thorough': 400000},
     'level_text': 'schedule-controlled interleavings (random and depth-first over small scopes) at atomic-access granularity with TSan judging the happens-before relation of the real memory orders; held on everything generated',
